@@ -147,6 +147,7 @@ func namedSpecs() []spec.Spec {
 			{Op: "AllowAttrs", Names: []string{"name"}, NoAttrs: true, Scope: "matching", OnRe: reMyX},
 			{Op: "AllowNoAttrs", Re: `^[a-z]+$`, Scope: "matching", OnRe: `^zz-[a-z]+$`},
 			{Op: "AllowNoAttrs", Re: `^[a-z]+$`, Scope: "on", On: []string{"i"}},
+			{Op: "AllowAttrs", Names: []string{"onclick", "id"}, Scope: "on", On: []string{}}, // OnElements() with no element: a rule for nothing
 		}},
 		// every forcing / switching option set, none of the elements they concern allowed: an option must never admit anything
 		{Name: "options-without-elements", Base: "new", Calls: []C{
